@@ -82,6 +82,8 @@ func refKind(t int) directive.Enumeration {
 		return directive.Get
 	case tURLParam2:
 		return directive.URL
+	case tGetNm:
+		return directive.Get
 	case tParams:
 		return directive.Params
 	case tResult:
